@@ -2,6 +2,8 @@
 from .common import *
 from .pxcommon import *
 from . import c08
+from . import c03 as _c03
+from .geomgen import *
 
 ID = "C10"
 PROPS_FILES = ["Props/C10"]
@@ -53,6 +55,14 @@ def gen_cases(rng, tier):
         x0 = rng.choice([0, 8100, 8180]); ln = min(w - x0, rng.choice([w, 200, 8292 - x0 if 8292 > x0 else 50]))
         s, a = px_case(rng.choice([4, 6, 6]), mode, False, False, rand_color(rng), True, x0, max(1, ln), row)
         cases.append((s, a + [-777, 10**9 + g, 9]))
+    # Mask::from_pixmap (alpha, luminance), invert, intersect_path, Pixmap::apply_mask against their documented values
+    for i in range(300 if tier == "quick" else 4000):
+        op = rng.randrange(6)
+        w, h = rng.choice([(1, 1), (7, 3), (16, 16), (33, 5), (24, 20)])
+        ops = rand_path_ops(rng, w / 2, h / 2, max(2.0, min(w, h) / 2 - 1), curves=rng.random() < 0.3) if op == 3 else []
+        cases.append(("mask_ops", [op, w, h, rng.getrandbits(40)] + ops))
+    # Mask::fill_path onto existing data (fill_px kind 3 of the C03 module)
+    cases += [c for c in _c03.gen_cases(rng, tier) if c[0] == "fill_px" and c[1][2] == 3][:30 if tier == "quick" else 400]
     return cases
 
 
@@ -60,9 +70,20 @@ def strip(args):
     return args[:-3] if len(args) >= 3 and args[-3] == -777 else args
 
 
+MASK_OPS = ["Mask::from_pixmap(Alpha)", "Mask::from_pixmap(Luminance)", "Mask::invert", "Mask::intersect_path", "Pixmap::apply_mask", "Pixmap::apply_mask with a mask of another size"]
+
+
 def oracle(suite, args, out):
     if out.startswith(("PANIC", "CRASH", "HANG")):
         return "implementation did not return: " + out[:200]
+    if suite == "mask_ops":
+        o = ints(out)
+        if len(o) >= 6 and o[1] > 0:
+            return "%s: %d of %d values differ from the documented value (first (%d,%d): got %d, expected %.2f)" % (
+                MASK_OPS[args[0] % 6], o[1], o[0], o[2], o[3], o[4], (o[5] - 1) / 1000.0)
+        return None
+    if suite == "fill_px":
+        return _c03.oracle(suite, args, out)
     c = decode(strip(args))
     if out.strip() in ("-1", "-9") or not c["has_mask"]:
         return None
@@ -107,6 +128,8 @@ def post_oracle(cases, outs):
 
 
 def known_class(suite, args, out, what):
+    if suite != "px":
+        return None
     c = decode(strip(args))
     if c["has_mask"] and MODES[c["mode"]] in KNOWN_MODES:
         return "C10-mask-scales-source"
@@ -124,10 +147,18 @@ def known_class(suite, args, out, what):
 
 
 def relation(suite, args, mo, io):
+    if suite == "mask_ops":
+        return mo.strip() == "-9"
+    if suite == "fill_px":
+        return _c03.relation(suite, args, mo, io)
     return c08.relation(suite, strip(args), mo, io)
 
 
 def nontrivial_tag(suite, args, out):
+    if suite == "mask_ops":
+        return "mask_op%d" % (args[0] % 6) if out and out[0].isdigit() and not out.startswith("0 ") else None
+    if suite == "fill_px":
+        return "mask_fill_on_top"
     c = decode(strip(args))
     ms = set(p[4] for p in c["row"])
     if c["has_mask"] and 0 in ms and len(ms) > 1:
